@@ -286,9 +286,9 @@ RULESETS = [
     ("list-only", [], [("(m (a b))", "(list-of-two a b)"), ("(m a)", "(something-else a)")]),
     ("template-vector", [], [("(m a b ...)", "#(a (b b) ...)")]),
 ]
-USES = ["()", "(1)", "(1 2)", "(1 2 3)", "((1 2))", "((1 2) (3 4))", "((1 2) 3)", "(lit 5)", "(x 5)", "(2 7)", "(#(1 2))", "(#(1 2 3))",
+USES = ["(#(1))", "(#())", "((1))", "()", "(1)", "(1 2)", "(1 2 3)", "((1 2))", "((1 2) (3 4))", "((1 2) 3)", "(lit 5)", "(x 5)", "(2 7)", "(#(1 2))", "(#(1 2 3))",
         "((1 (2 3)) 4)", "((1 2 3) 9)", "(1 . 2)", "((1 2 . 3))", '("lit" 5)', "((1 2) (3 4 . 5))"]
-QUICK_USES = ["()", "(1)", "(1 2)", "(1 2 3)", "((1 2) (3 4))", "(lit 5)", "(2 7)", "(#(1 2))", "((1 2 . 3))", '("lit" 5)']
+QUICK_USES = ["(#(1))", "(#())", "((1))", "()", "(1)", "(1 2)", "(1 2 3)", "((1 2) (3 4))", "(lit 5)", "(2 7)", "(#(1 2))", "((1 2 . 3))", '("lit" 5)']
 
 
 def table(fb, thorough=False):
